@@ -208,9 +208,28 @@ func extendAlphabetInf() []*ref.G {
 	}
 }
 
+// extendAlphabetPoints: geometries of type Point (and one MultiPoint, one collection holding a
+// point) whose Z and M values interleave - an M that lies inside the Z interval reached so far
+// but outside the M interval, a Z inside the M interval - with X and Y inside the box from the
+// second step on.
+func extendAlphabetPoints() []*ref.G {
+	pt := func(l geom.Layout, v ...float64) *ref.G {
+		return &ref.G{Kind: ref.Point, Layout: l, C0: ref.FromFloats(v)}
+	}
+	return []*ref.G{
+		pt(geom.XY, 5, 5), pt(geom.XYZ, 5, 5, 1), pt(geom.XYZ, 4, 6, 9), pt(geom.XYM, 5, 5, 5), pt(geom.XYM, 5, 5, 50), pt(geom.XYM, 4, 6, -3),
+		pt(geom.XYZM, 5, 5, 2, 6), pt(geom.XYZM, 4, 6, 40, 7), ref.NewPoint(geom.XYM, false, ref.Counter()),
+		{Kind: ref.MultiPoint, Layout: geom.XYM, C1: []ref.C{ref.FromFloats([]float64{5, 5, 8})}},
+		{Kind: ref.Collection, Kids: []*ref.G{pt(geom.XYM, 5, 5, 3), pt(geom.XYZ, 5, 5, 30)}},
+	}
+}
+
 func extendAlphabetFor(name string) []*ref.G {
 	if name == "inf" {
 		return extendAlphabetInf()
+	}
+	if name == "pts" {
+		return extendAlphabetPoints()
 	}
 	return extendAlphabet()
 }
@@ -311,6 +330,10 @@ func c08Exec(c *engine.Ctx, cs c08Case, onState func(multiset, key string)) {
 			names := []string{}
 			for _, o := range cs.Ops {
 				if cs.Alpha != "" {
+					if cs.Alpha == "pts" {
+						names = append(names, alpha[o].String())
+						continue
+					}
 					names = append(names, fmt.Sprintf("%s%v", alpha[o].Layout, alpha[o].C1))
 					continue
 				}
@@ -640,7 +663,7 @@ func c08Run(c *engine.Ctx) {
 		depth = 5
 	}
 	c.Note("extend_depth", depth)
-	for _, alphaName := range []string{"", "inf"} {
+	for _, alphaName := range []string{"", "inf", "pts"} {
 		alpha := extendAlphabetFor(alphaName)
 		for _, start := range []geom.Layout{geom.NoLayout, geom.XY, geom.XYZ, geom.XYM, geom.XYZM} {
 			for init := 0; init < 3; init++ {
